@@ -16,6 +16,18 @@ CHECKS = {
              "check. Callers of canonicalisation (loader, CLI, depfile) are covered under C10/C18/C09.",
         technique="Coq proof (induction/invariants) over a hand model + exhaustive small-scope differential correspondence",
     ),
+    "C20": dict(
+        category="proof",
+        text="Coq theorems over the model of truncate / task_message / progress_bar (no panic for any byte string, width and "
+             "time; result <= width bytes, ends on a char boundary, valid UTF-8 stays valid; bar exactly its nominal width) + "
+             "exhaustive differential check against the real helpers (strings <= 5/6 chars over {a,é,€,😀} x widths x seconds, "
+             "all count vectors up to a bound). The pinned tree violated it (F15, repaired by a fix: commit; witness kept as "
+             "C20_task_message_pinned_refuted).",
+        design_ref="DESIGN.md §6 C20",
+        note="Trusted: Coq kernel, extraction, hand model, sampling of the differential check. Not modelled: the display thread, "
+             "mutex poisoning, terminal ioctl (the isolation clause is a run-time fact).",
+        technique="Coq proof over a hand model + exhaustive small-scope differential correspondence",
+    ),
 }
 
 PENDING_REASON = "check not built yet in this round (work in progress, see DESIGN.md §10); not claimed"
